@@ -247,7 +247,12 @@ PROPERTIES = {
         "rule": SIM_CASE + ("with fault kinds on Log ops and a throw plan per sink; non-trivial = >= 1 injected fault with >= 1 later "
                             "accepted statement on the same thread and >= 1 flush in the program"),
         "assumptions": ["sinks throw std::exception-derived errors only (property text)"],
-        "jobs": _simjobs("C10", ["sim_bb1k", "sim_ub", "sim_bb4k"], quick_procs=3),
+        "jobs": _simjobs("C10", ["sim_bb1k", "sim_ub", "sim_bb4k"], quick_procs=3) + [
+            # sink failures while a backtrace is replayed: the C18 program generator and its reference ring, with sinks that
+            # throw for chosen backtrace statements (only that statement may be missing, on that sink and the ones after it)
+            {"bin": b, "params": {"prop": "C18", "bt_throws": 1},
+             "quick": {"cases": 700, "procs": 2, "maxlen": 400},
+             "thorough": {"cases": 10000, "procs": 4, "maxlen": 700}} for b in ("sim_bb1k", "sim_ub")],
     },
     "C16": {
         "technique": "stateful property-based testing through the real LOG_* macros with argument-evaluation counters; iff-model per sink (level threshold, filters, override pattern)",
